@@ -15,6 +15,7 @@ package checks
 // an unreadable epoll descriptor while a handler is queued). Plus a free-running -race pass (cmd/c05race).
 
 import (
+	"context"
 	"fmt"
 	"os"
 	"os/exec"
@@ -187,9 +188,17 @@ func c05RacePass(rep *engine.Report) {
 		rep.Coverage["race_pass"] = "not built"
 		return
 	}
-	cmd := exec.Command(bin, "30")
+	// bounded: with a deadlock in the code under test the free-running program never ends (the scheduler part
+	// reports the deadlock; here it only means the race pass could not finish)
+	ctx, cancel := context.WithTimeout(context.Background(), 90*time.Second)
+	defer cancel()
+	cmd := exec.CommandContext(ctx, bin, "30")
 	cmd.Env = append(os.Environ(), "GORACE=halt_on_error=0 exitcode=66")
 	out, err := cmd.CombinedOutput()
+	if ctx.Err() != nil {
+		rep.Coverage["race_pass"] = "did not finish within 90 s (killed)"
+		return
+	}
 	races := strings.Count(string(out), "WARNING: DATA RACE")
 	rep.Coverage["race_pass"] = map[string]any{"rounds": 30, "data_race_reports": races, "exit": fmt.Sprint(err)}
 	if races > 0 {
